@@ -425,6 +425,29 @@ func c25Contains(l []string, s string) bool {
 	return false
 }
 
+// a line of the file that the INI reader reads as key=pk (or alias=pk) but that is
+// not byte-identical to "key=pk" (the only form removeLineFromFile matches)
+func c25OddLineFor(file, key, alias, pk string) bool {
+	for _, l := range strings.Split(file, "\n") {
+		l = strings.TrimSuffix(l, "\r")
+		if l == key+"="+pk {
+			continue
+		}
+		kv := strings.SplitN(strings.TrimSpace(l), "=", 2)
+		if len(kv) != 2 {
+			continue
+		}
+		k, v := strings.TrimSpace(kv[0]), strings.TrimSpace(kv[1])
+		if len(v) >= 2 && v[0] == '"' && v[len(v)-1] == '"' {
+			v = v[1 : len(v)-1]
+		}
+		if (k == key || k == alias) && v == pk {
+			return true
+		}
+	}
+	return false
+}
+
 func c25HasSection(file string) bool {
 	for _, l := range strings.Split(file, "\n") {
 		if strings.HasPrefix(strings.TrimSpace(l), "[") {
@@ -466,7 +489,6 @@ func c25RunSeq(dir string, f0 string, ops []c25Op, gen func(cur *policy.Policy) 
 			o = gen(cur)
 		}
 		usedOps = append(usedOps, o)
-		before := cur.Get()
 		fb, _ := os.ReadFile(path)
 		var oerr error
 		switch o.Op {
@@ -526,11 +548,11 @@ func c25RunSeq(dir string, f0 string, ops []c25Op, gen func(cur *policy.Policy) 
 		changedFile := string(fa) != string(fb)
 		switch o.Op {
 		case "rem_allow":
-			if oerr == nil && c25Contains(after.PeerAllowlist, o.Arg) {
+			if oerr == nil && c25Contains(after.PeerAllowlist, o.Arg) && c25OddLineFor(string(fb), "allowlisted_peers", "PeerAllowlist", o.Arg) {
 				diag = "remove-reports-success-peer-stays"
 			}
 		case "rem_susp":
-			if oerr == nil && c25Contains(after.SuspiciousPeerList, o.Arg) {
+			if oerr == nil && c25Contains(after.SuspiciousPeerList, o.Arg) && c25OddLineFor(string(fb), "suspicious_peers", "SuspiciousPeerList", o.Arg) {
 				diag = "remove-reports-success-peer-stays"
 			}
 		case "add_allow", "add_susp", "disable", "enable":
@@ -547,12 +569,11 @@ func c25RunSeq(dir string, f0 string, ops []c25Op, gen func(cur *policy.Policy) 
 					ineffective = !after.AllowNewSwaps
 				}
 			}
-			if changedFile && glued {
-				if ineffective || len(after.PeerAllowlist) < len(before.PeerAllowlist) || len(after.SuspiciousPeerList) < len(before.SuspiciousPeerList) ||
-					after.MinSwapAmountMsat != before.MinSwapAmountMsat || after.ReserveOnchainMsat != before.ReserveOnchainMsat || after.AcceptAllPeers != before.AcceptAllPeers {
-					diag = "append-glued-to-unterminated-last-line"
-				}
-			} else if ineffective && sect {
+			isAdd := o.Op == "add_allow" || o.Op == "add_susp"
+			if isAdd && changedFile && glued && strings.HasPrefix(string(fa), string(fb)) {
+				// the line was appended directly behind the unterminated last line
+				diag = "append-glued-to-unterminated-last-line"
+			} else if ineffective && oerr == nil && sect {
 				diag = "append-lands-in-ignored-section"
 			}
 		}
